@@ -2899,10 +2899,14 @@ def transform_compressible(items, constants, labels):
 
         # check if any set of criteria is all true for this item
         compressed = None
-        for name, preds in criteria.items():
-            if all(pred(item, position, env) for pred in preds):
-                compressed = name
-                break
+        try:
+            for name, preds in criteria.items():
+                if all(pred(item, position, env) for pred in preds):
+                    compressed = name
+                    break
+        except ValueError as e:
+            # e.g. an unknown register: report it like resolve_instructions would
+            raise AssemblerError(str(e), item.line)
 
         # swap out the instruction for its compressed counterpart
         if compressed is not None:
